@@ -189,6 +189,21 @@ def _block(repo, col):
                 fn = unparse(c.func)
                 last = fn.split(".")[-1]
                 root = fn.split(".")[0]
+                if last in ("custom_linear_solve", "custom_root", "custom_gradient", "defjvp", "defvjp", "defjvps", "custom_transpose", "linear_call"):
+                    # the derivative of this call is what the caller DECLARES, not what autodiff derives
+                    n += 1
+                    sym = next((k_.value for k_ in c.keywords if k_.arg == "symmetric"), None)
+                    tsolve = next((k_.value for k_ in c.keywords if k_.arg == "transpose_solve"), c.args[4] if len(c.args) > 4 else None)
+                    if last == "custom_linear_solve" and sym is not None and isinstance(sym, ast.Constant) and sym.value is True:
+                        why = (f"`{unparse(c)[:80]}` declares the operator symmetric: the reverse-mode pass then solves with A where it needs A^T. The voltage-step "
+                               f"matrix is not symmetric (conductances are divided by the capacitance and area of the RECEIVING compartment), so the value is "
+                               f"unchanged and every jax.grad through it is wrong as soon as two neighbouring compartments differ")
+                    elif last == "custom_linear_solve" and tsolve is None:
+                        why = f"`{unparse(c)[:80]}` gives no transpose solve: reverse-mode differentiation through the solve is not defined by this call"
+                    else:
+                        why = f"`{unparse(c)[:80]}` replaces autodiff by a hand-written derivative rule; its correctness is not established by this analysis"
+                    col.bad(R, fi, f"{fn}(...) in {fi.qual}: derivative is derived, not declared", why, node=c)
+                    continue
                 if root in ("jnp", "jax", "np", "lax") or last in ("stop_gradient",):
                     n += 1
                     bad = last in BLOCKERS
